@@ -695,7 +695,8 @@ func stateBeginArrayItemOrEmpty(s *Scanner, c byte) state {
 	if c == ']' {
 		return stateFoundArrayEnd(s)
 	}
-	if s.annotation == annotationNone {
+	// A blank between the brackets is not an item: `[ ]` is as empty as `[]`.
+	if s.annotation == annotationNone && !bytes.IsBlank(c) {
 		s.context.ArrayHasItem = true
 	}
 	return stateBeginValue(s, c)
